@@ -179,7 +179,7 @@ def _rand_float_path(spt, r):
                 rad = complex(r.uniform(0.2, 3) * sc, r.uniform(0.2, 3) * sc)
                 s = P.Arc(cur, rad, r.choice([0.0, 30.0, -45.5, 400.0]), r.random() < 0.5, r.random() < 0.5, end)
             segs.append(s); prev = s; cur = end
-    if segs and r.random() < 0.12 and isinstance(segs[-1], P.Line) and segs[-1].end == segs[0].start and all(a_.end == b_.start for a_, b_ in zip(segs, segs[1:])):
+    if segs and r.random() < 0.5 and isinstance(segs[-1], P.Line) and segs[-1].end == segs[0].start and all(a_.end == b_.start for a_, b_ in zip(segs, segs[1:])):
         # a closed outline drawn twice (or its closing edge retraced): an EARLIER Line equal, by value, to the closing Line
         dup = [type(x_)(*x_.bpoints()) if not isinstance(x_, P.Arc) else P.Arc(x_.start, x_.radius, x_.rotation, x_.large_arc, x_.sweep, x_.end) for x_ in segs]
         segs = segs + dup if r.random() < 0.6 else segs + [P.Line(segs[-1].end, segs[-1].start), P.Line(segs[-1].start, segs[-1].end)]
